@@ -1,6 +1,7 @@
 //! ARENA dialect: pointer code of node.rs / raw / traverser translated to an index arena `Heap`.
 //!
 //! Template directives (specs/<unit>.vrs):
+//!     //@FNV <fn key>           like //@FN, but VERBATIM dialect: the body is the real text (structured only for anchoring)
 //!     //@FN <fn key>            start of a function block; the lines up to //@BODY are the hand-written
 //!                               signature and contract (copied verbatim)
 //!     //@BODY                   the translated body of the real function is emitted here
@@ -57,6 +58,8 @@ pub struct Tx<'a> {
     /// statements hoisted out of the current one (R16)
     pub pre: Vec<String>,
     pub tmp_count: usize,
+    /// VERBATIM dialect (//@FNV): statements are structured for anchoring but every expression is the real text
+    pub verbatim: bool,
 }
 
 fn path_str(p: &syn::Path) -> String {
@@ -173,6 +176,9 @@ impl<'a> Tx<'a> {
     }
 
     pub fn expr(&mut self, e: &syn::Expr) -> String {
+        if self.verbatim {
+            return toks(e);
+        }
         match e {
             syn::Expr::Lit(_) => toks(e),
             syn::Expr::Path(p) => {
@@ -473,6 +479,9 @@ impl<'a> Tx<'a> {
     fn stmt(&mut self, s: &syn::Stmt, ind: usize) {
         let ln = s.span().start().line;
         match s {
+            syn::Stmt::Local(l) if self.verbatim => {
+                self.push(ind, toks(l), ln, true);
+            }
             syn::Stmt::Local(l) => {
                 let (name, ty) = match &l.pat {
                     syn::Pat::Ident(i) => (Some((i.ident.to_string(), i.mutability.is_some())), None),
@@ -727,7 +736,9 @@ pub fn generate(idx: &SrcIndex, template: &str) -> ArenaOut {
     let mut i = 0;
     while i < lines.len() {
         let t = lines[i].trim();
-        if let Some(key) = t.strip_prefix("//@FN ") {
+        let fnv = t.strip_prefix("//@FNV ");
+        if let Some(key) = t.strip_prefix("//@FN ").or(fnv) {
+            let verbatim = fnv.is_some();
             let key = key.trim().to_string();
             // parse the block
             let mut header = vec![];
@@ -768,7 +779,7 @@ pub fn generate(idx: &SrcIndex, template: &str) -> ArenaOut {
                     errors.push(format!("lost anchor: function {} not found", key));
                 }
                 Some(f) => {
-                    let mut tx = Tx { f, lines: vec![], errors: vec![], aliases: vec![], loop_count: 0, ret_count: 0, self_is_bin: f.owner == "TreeBin", pre: vec![], tmp_count: 0 };
+                    let mut tx = Tx { f, lines: vec![], errors: vec![], aliases: vec![], loop_count: 0, ret_count: 0, self_is_bin: f.owner == "TreeBin", pre: vec![], tmp_count: 0, verbatim };
                     tx.block(&f.block, 1);
                     errors.extend(tx.errors.iter().cloned());
                     // resolve anchors
@@ -850,6 +861,12 @@ pub fn generate(idx: &SrcIndex, template: &str) -> ArenaOut {
                                 out.push_str(x);
                                 out.push('\n');
                             }
+                        }
+                    }
+                    if let Some(v) = at.get("exit") {
+                        for x in v {
+                            out.push_str(x);
+                            out.push('\n');
                         }
                     }
                     out.push_str("}\n");
